@@ -45,7 +45,7 @@ def suite_echo(ctx):
     s = Suite('echo')
     rng = ctx.rng
     lines, impl = [], []
-    per = ctx.n(60, 1200)
+    per = ctx.n(60, 300)
     for name, gen in declib.ECHO_GENERATORS:
         cases = gen(rng, per if name != 'dtc' else per * 6)
         for ci, c in enumerate(cases):
